@@ -99,6 +99,7 @@ def make_world(case):
         fr["v"] = ((ku * 13 + jjv[None] * 7 + iiv[None] * 3) % 16) / 8.0 - 0.875
     fr["temp"] = 4.0 + ((ku * 7 + jj[None] * 3 + ii[None]) % 8) / 4.0
     fr["salt"] = 30.0 + ((ku * 5 + jj[None] * 7 + ii[None] * 3) % 16) / 8.0  # a second scalar of the same shape
+    fr["w"] = ((ku * 3 + jj[None] * 5 + ii[None] * 7) % 8) / 512.0 - 2.0 ** -7  # the vertical velocity, read like a scalar field (own cell)
     return w, fr
 
 
@@ -195,6 +196,8 @@ def run_case(case):
         mu, mv = w.mask[:, :-1] * w.mask[:, 1:], w.mask[:-1, :] * w.mask[1:, :]
         frw = dict(fr, u=np.where(mu[None] > 0, fr["u"], np.nan), v=np.where(mv[None] > 0, fr["v"], np.nan))
         sto = "f8"
+    if sto in ("f4", "f8"):  # float files carry the ROMS fill value in the land cells of w (no particle is ever in a land cell)
+        frw = dict(frw, w=np.where(w.mask[None] > 0, fr["w"], 2.0 ** 120))  # a huge value that single precision holds exactly
     f = w.write_file(d / "f_0.nc", [dict(t=S0, **frw)], storage=sto, scale=scale)
     w.write_file(d / "f_1.nc", [dict(t=S0 + 10 * DT, **frw)], storage=sto, scale=scale_b)
     pattern = str(d / "f_*.nc")
@@ -242,12 +245,12 @@ def run_case(case):
             continue
         P = particles(w, *exp_lim)
         X, Y, Z = (np.array([p[k] for p in P]) for k in range(3))
-        st = State(instance_variables=dict(temp=float, salt=float))
-        st.append(X=X, Y=Y, Z=Z, temp=0.0, salt=0.0)
+        st = State(instance_variables=dict(temp=float, salt=float, w=float))
+        st.append(X=X, Y=Y, Z=Z, temp=0.0, salt=0.0, w=0.0)
         st["active"][::5] = False  # settled particles are not moved, but they are alive: they feel the forcing at their position like the others
         tk = TimeKeeper(start=world.iso(S0), stop=world.iso(S0 + 5 * DT), dt=DT)
         try:
-            force = Forcing(dict(time=tk, grid=grid, state=st), pattern, extra_forcing=["temp", "salt"])
+            force = Forcing(dict(time=tk, grid=grid, state=st), pattern, extra_forcing=["temp", "salt", "w"])
             tk.update()
             force.update()
             u1, v1 = np.array(force.variables["u"]), np.array(force.variables["v"])
@@ -255,6 +258,7 @@ def run_case(case):
             u3, v3 = force.velocity(st.X, st.Y, st.Z, fractional_step=0.5)
             t1, t2 = np.array(force.variables["temp"]), np.array(st["temp"])
             s1 = np.array(force.variables["salt"])
+            w1 = np.array(force.variables["w"])
             phase2 = None
             if sg is None:
                 # second step: every particle is moved to the neighbouring lattice position (depths unchanged), as the tracker would
@@ -297,6 +301,9 @@ def run_case(case):
             sc2 = refinterp.scalar_candidates(w, fr["salt"], *p)
             if not any(abs(s1[k] - e) <= 1e-12 * abs(e) for e in sc2):
                 bad("scalar:second-variable", f"at {p}: salt={s1[k]} expected one of {sc2}", sg)
+            sc3 = refinterp.scalar_candidates(w, frw["w"], *p)  # the file's values: exactly on the edge to a land cell either cell may count as the own one
+            if not any(abs(w1[k] - e) <= 1e-12 * max(1.0, abs(e)) for e in sc3):
+                bad("scalar:w", f"at {p}: w={w1[k]} expected one of {sc3} (the value of the particle's own cell; land cells of the file hold the fill value)", sg)
             # independent exactness on linear fields away from land
             if case["field"] == "linear" and case["mask"] == "sea":
                 x, y, z = p
